@@ -10,7 +10,7 @@ fm = import_finam()
 import numpy as np  # noqa: E402
 
 from finam.interfaces import ComponentStatus  # noqa: E402
-from finam.tools.connect_helper import FromInput, FromOutput  # noqa: E402
+from finam.tools.connect_helper import FromInput, FromOutput, FromValue  # noqa: E402
 
 ST = {ComponentStatus.INITIALIZED: "init", ComponentStatus.CONNECTING: "connecting",
       ComponentStatus.CONNECTING_IDLE: "idle", ComponentStatus.CONNECTED: "connected"}
@@ -26,8 +26,9 @@ class HShape(fm.TimeComponent):
     def _next_time(self):
         return self.time + (day(1) - day(0))
 
-    def _info(self):
-        return fm.Info(time=self.time, grid=fm.NoGrid(), units="m")
+    def _info(self, otag=False):
+        # an output's own metadata carries the marker otag (ConnectOps.OutM)
+        return fm.Info(time=self.time, grid=fm.NoGrid(), units="m", **({"otag": self.idx} if otag else {}))
 
     def _initialize(self):
         k = self.k
@@ -35,13 +36,14 @@ class HShape(fm.TimeComponent):
             self.inputs.add(name="In", info=self._info() if k["inown"] else None)
         if k["hasout"]:
             if k["outown"]:
-                self.outputs.add(name="Out", info=self._info())
+                self.outputs.add(name="Out", info=self._info(otag=True))
             else:
                 self.outputs.add(name="Out")
         self.create_connector(
             pull_data=["In"] if k["hasin"] and k["pull"] else [],
-            in_info_rules={"In": [FromOutput("Out")]} if k["hasin"] and not k["inown"] else None,
-            out_info_rules={"Out": [FromInput("In")]} if k["hasout"] and not k["outown"] and not k.get("oprov") else None)
+            in_info_rules={"In": [FromOutput("Out"), FromValue("ivia", self.idx)]} if k["hasin"] and not k["inown"] else None,
+            out_info_rules={"Out": [FromInput("In"), FromValue("ovia", self.idx)]}
+            if k["hasout"] and not k["outown"] and not k.get("oprov") else None)
 
     def _cond(self):
         k, con = self.k, self.connector
@@ -57,7 +59,7 @@ class HShape(fm.TimeComponent):
             guess = (self.k.get("refine") and self.k["hasin"] and self.k["pull"]
                      and not self.connector.all_data_pulled)
             push = {"Out": float(1000 * self.idx + self.k["off"] + (500 if guess else 0))}
-        infos = {"Out": self._info()} if self.k["hasout"] and self.k.get("oprov") else None
+        infos = {"Out": self._info(otag=True)} if self.k["hasout"] and self.k.get("oprov") else None
         self.try_connect(start_time, push_infos=infos, push_data=push)
 
     def _validate(self):
@@ -85,11 +87,16 @@ class HShape(fm.TimeComponent):
             "tok": tok})
 
 
+def markers(info):
+    meta = info.meta if info is not None else {}
+    return [int(meta.get(key) or 0) for key in ("otag", "ovia", "ivia")]
+
+
 def run_case(cfg):
     events = []
     comps = [HShape(i, k, events) for i, k in enumerate(cfg["comps"], start=1)]
     memdir = tempfile.mkdtemp(prefix="fv-mem-")
-    end = {"out": "ok", "unconnected": []}
+    end = {"out": "ok", "unconnected": [], "meta": []}
     try:
         composition = fm.Composition([comps[i - 1] for i in cfg["order"]], print_log=False,
                                      slot_memory_location=memdir)
@@ -109,6 +116,8 @@ def run_case(cfg):
             c.connect = connect
         try:
             composition.connect(day(0))
+            end["meta"] = [{"inm": markers(c.inputs["In"].info) if c.k["hasin"] else [0, 0, 0],
+                            "outm": markers(c.outputs["Out"].info) if c.k["hasout"] else [0, 0, 0]} for c in comps]
         except fm.errors.FinamCircularCouplingError as e:
             end["out"] = "stall"
             m = re.search(r"Unconnected components: \[(.*)\]", str(e))
